@@ -491,3 +491,51 @@ impl<VM: VMBinding> LargeObjectSpace<VM> {
 fn get_super_page(cell: Address) -> Address {
     cell.align_down(BYTES_IN_PAGE)
 }
+
+/// Hooks for the external verification harness.
+#[cfg(feature = "mmtk_verif")]
+pub mod verif_hooks {
+    use super::LargeObjectSpace;
+    use crate::util::ObjectReference;
+    use crate::vm::VMBinding;
+    use std::alloc::{alloc_zeroed, dealloc, Layout};
+    use std::marker::PhantomData;
+
+    /// Runs the real `LargeObjectSpace::test_and_mark` without building a space.  The method
+    /// reads only the field `in_nursery_gc`, so a zero-filled allocation of the right layout with
+    /// that field set stands in for the space; it is never moved or dropped as a space.
+    pub struct LosTestAndMark<VM: VMBinding> {
+        mem: *mut u8,
+        _p: PhantomData<VM>,
+    }
+
+    unsafe impl<VM: VMBinding> Send for LosTestAndMark<VM> {}
+    unsafe impl<VM: VMBinding> Sync for LosTestAndMark<VM> {}
+
+    impl<VM: VMBinding> LosTestAndMark<VM> {
+        /// Allocate the stand-in for a space that is (not) in a nursery GC.
+        pub fn new(in_nursery_gc: bool) -> Self {
+            let mem = unsafe { alloc_zeroed(Layout::new::<LargeObjectSpace<VM>>()) };
+            assert!(!mem.is_null());
+            unsafe {
+                let space = mem as *mut LargeObjectSpace<VM>;
+                std::ptr::addr_of_mut!((*space).in_nursery_gc).write(in_nursery_gc);
+            }
+            Self {
+                mem,
+                _p: PhantomData,
+            }
+        }
+        /// `LargeObjectSpace::test_and_mark(object, value)`.
+        pub fn test_and_mark(&self, object: ObjectReference, value: u8) -> bool {
+            let space = unsafe { &*(self.mem as *const LargeObjectSpace<VM>) };
+            space.test_and_mark(object, value)
+        }
+    }
+
+    impl<VM: VMBinding> Drop for LosTestAndMark<VM> {
+        fn drop(&mut self) {
+            unsafe { dealloc(self.mem, Layout::new::<LargeObjectSpace<VM>>()) }
+        }
+    }
+}
